@@ -205,8 +205,8 @@ def gen_tri_surface(rng, tier):
     return gen_heightfield(rng)
 
 
-def gen_box(rng):
-    d = rng.wchoice([1, 2, 3, 4, 5], [2, 4, 4, 2, 2])
+def gen_box(rng, d=None):
+    d = d or rng.wchoice([1, 2, 3, 4, 5], [2, 4, 4, 2, 2])
     kind = rng.wchoice(["unit", "sym", "generic"], [1, 1, 8])
     if kind == "unit":
         return {"mini": [0.0] * d, "maxi": [1.0] * d}
@@ -220,6 +220,14 @@ def gen_box(rng):
         mini.append(m)
         maxi.append(m + sp)
     return {"mini": mini, "maxi": maxi}
+
+
+def _gen_boxes(wr, n, twin):
+    """n boxes; with `twin`, the second has the dimension of the first (two different boxes sampled with the same grid resolution)"""
+    out = [gen_box(wr.fork(("bx", i))) for i in range(n)]
+    if twin and n >= 2:
+        out[1] = gen_box(wr.fork(("bx", "twin")), d=len(out[0]["mini"]))
+    return out
 
 
 def _ctrl_point(rng, dim, scale, off):
@@ -325,7 +333,7 @@ class C19(Sim):
         world = {
             "polylines": [gen_polyline(wr.fork(("pl", i))) for i in range(rng.randint(1, 3))],
             "surfaces": [gen_tri_surface(wr.fork(("sf", i)), tier) for i in range(rng.randint(1, 3))],
-            "boxes": [gen_box(wr.fork(("bx", i))) for i in range(rng.randint(2, 4))],
+            "boxes": _gen_boxes(wr, rng.randint(2, 4), rng.chance(0.5)),
             "curves": [gen_curve(wr.fork(("cv", i))) for i in range(rng.randint(1, 3))],
             "patches": [gen_patch(wr.fork(("pt", i))) for i in range(rng.randint(1, 2))],
         }
@@ -483,6 +491,16 @@ class C19(Sim):
             if mode == "grid" and r.chance(0.4):
                 k = r.randint(1, max(1, int(round(2000 ** (1.0 / d)))))
                 n = max(1, min(k ** d + r.choice([0, 0, 1, -1]), 2000, MAX_DRAWS - self.draws))
+            lg = getattr(self, "_last_grid", None)
+            if mode == "grid" and lg is not None and r.chance(0.4):
+                # the same grid resolution again, on a box of the same dimension (another one when there is one)
+                same = [i for i, bx in enumerate(w["boxes"]) if len(bx["mini"]) == lg[0]]
+                others = [i for i in same if i != lg[2]] or same
+                if others and lg[1] <= MAX_DRAWS - self.draws:
+                    b, n = r.choice(others), lg[1]
+                    d = lg[0]
+            if mode == "grid":
+                self._last_grid = (d, n, b)
             return {"c": c, "op": op, "box": b, "n": n, "mode": mode, "pc": d <= 3 and r.chance(0.25)}
         if op == "polyline":
             wi = r.below(len(w["polylines"]))
